@@ -1,13 +1,323 @@
 package main
 
+// apply cases: exact differential of Model/ApplyOrder.v part 1 (handle_tasks) against the
+// REAL rsm.StateMachine (Handle / handle / handleEntry / handleBatch / EntriesToApply /
+// Recover), reached through the verif-tagged bridge github.com/lni/dragonboat/v4/verifhooks/c11.
+// A task queue (entry batches with gaps, re-sent prefixes and non-update entries, periodic sync,
+// save and recover barriers) is put into the real task queue and drained with the real Handle,
+// for the three kinds of user state machine; the observation is the sequence of (index,
+// payload) handed to the user's Update, the final StateMachine.index and the panic class.
+
 import (
+	"encoding/binary"
+	"errors"
 	"fmt"
+	"io"
+	"strconv"
+	"strings"
+
+	"github.com/lni/dragonboat/v4/config"
+	pb "github.com/lni/dragonboat/v4/raftpb"
+	sm "github.com/lni/dragonboat/v4/statemachine"
+	hk "github.com/lni/dragonboat/v4/verifhooks/c11"
 
 	"verif/harness/vh"
 )
 
-// apply cases (exact differential of Model/ApplyOrder.v part 1) are added by apply_hooks.go
-var genApply = func(r *vh.Rand, w *vh.LineWriter, a vh.Args) {}
-var runApply = func(id string, hdr []string, ops []string, st *vh.Stats, line string) string {
-	return fmt.Sprintf("%s ?\n", id)
+type applyRec struct {
+	calls [][2]uint64
+	init  uint64
 }
+
+func (a *applyRec) add(es []sm.Entry) {
+	for _, e := range es {
+		a.calls = append(a.calls, [2]uint64{e.Index, payloadOf(e.Cmd)})
+	}
+}
+
+type aPlain struct{ *applyRec }
+
+func (s aPlain) Update(e sm.Entry) (sm.Result, error) {
+	s.add([]sm.Entry{e})
+	return sm.Result{Value: e.Index}, nil
+}
+func (s aPlain) Lookup(interface{}) (interface{}, error) { return nil, nil }
+func (s aPlain) SaveSnapshot(io.Writer, sm.ISnapshotFileCollection, <-chan struct{}) error {
+	return nil
+}
+func (s aPlain) RecoverFromSnapshot(io.Reader, []sm.SnapshotFile, <-chan struct{}) error { return nil }
+func (s aPlain) Close() error                                                          { return nil }
+
+type aConc struct{ *applyRec }
+
+func (s aConc) Update(es []sm.Entry) ([]sm.Entry, error) {
+	s.add(es)
+	for i := range es {
+		es[i].Result = sm.Result{Value: es[i].Index}
+	}
+	return es, nil
+}
+func (s aConc) Lookup(interface{}) (interface{}, error)  { return nil, nil }
+func (s aConc) PrepareSnapshot() (interface{}, error)    { return nil, nil }
+func (s aConc) SaveSnapshot(interface{}, io.Writer, sm.ISnapshotFileCollection, <-chan struct{}) error {
+	return nil
+}
+func (s aConc) RecoverFromSnapshot(io.Reader, []sm.SnapshotFile, <-chan struct{}) error { return nil }
+func (s aConc) Close() error                                                          { return nil }
+
+type aDisk struct{ *applyRec }
+
+func (s aDisk) Open(<-chan struct{}) (uint64, error) { return s.init, nil }
+func (s aDisk) Update(es []sm.Entry) ([]sm.Entry, error) {
+	s.add(es)
+	for i := range es {
+		es[i].Result = sm.Result{Value: es[i].Index}
+	}
+	return es, nil
+}
+func (s aDisk) Lookup(interface{}) (interface{}, error)                   { return nil, nil }
+func (s aDisk) Sync() error                                               { return nil }
+func (s aDisk) PrepareSnapshot() (interface{}, error)                     { return nil, nil }
+func (s aDisk) SaveSnapshot(interface{}, io.Writer, <-chan struct{}) error { return nil }
+func (s aDisk) RecoverFromSnapshot(io.Reader, <-chan struct{}) error      { return nil }
+func (s aDisk) Close() error                                              { return nil }
+
+type aNode struct{ stop chan struct{} }
+
+func (n *aNode) StepReady()                                            {}
+func (n *aNode) RestoreRemotes(pb.Snapshot) error                      { return nil }
+func (n *aNode) ApplyUpdate(pb.Entry, sm.Result, bool, bool, bool)     {}
+func (n *aNode) ApplyConfigChange(pb.ConfigChange, uint64, bool) error { return nil }
+func (n *aNode) ReplicaID() uint64                                     { return 1 }
+func (n *aNode) ShardID() uint64                                       { return 1 }
+func (n *aNode) ShouldStop() <-chan struct{}                           { return n.stop }
+
+var errNoSS = errors.New("no snapshot")
+
+// aSnapshotter hands out the snapshot record the harness configured; snapshots are "dummy"
+// (no payload for the user state machine): only the index discipline is under test here
+type aSnapshotter struct {
+	ss  pb.Snapshot
+	has bool
+}
+
+func (s *aSnapshotter) GetSnapshot() (pb.Snapshot, error) {
+	if !s.has {
+		return pb.Snapshot{}, errNoSS
+	}
+	return s.ss, nil
+}
+func (s *aSnapshotter) Stream(hk.IStreamable, hk.SSMeta, pb.IChunkSink) error { return errors.New("unused") }
+func (s *aSnapshotter) Shrunk(pb.Snapshot) (bool, error)                       { return false, nil }
+func (s *aSnapshotter) Save(hk.ISavable, hk.SSMeta) (pb.Snapshot, hk.SSEnv, error) {
+	return pb.Snapshot{}, hk.SSEnv{}, errors.New("unused")
+}
+func (s *aSnapshotter) Load(pb.Snapshot, hk.ILoadable, hk.IRecoverable) error { return nil }
+func (s *aSnapshotter) IsNoSnapshotError(err error) bool                      { return errors.Is(err, errNoSS) }
+
+func dummySS(index uint64) pb.Snapshot {
+	return pb.Snapshot{Index: index, Term: 1, Dummy: true,
+		Membership: pb.Membership{Addresses: map[uint64]string{1: "a1"}}}
+}
+
+func panicClass(p string) int {
+	switch {
+	case p == "":
+		return 0
+	case strings.Contains(p, "entry hole"):
+		return 1
+	case strings.Contains(p, "applied index"):
+		return 2
+	}
+	return 9
+}
+
+func runApplyCase(id string, hdr []string, ops []string, st *vh.Stats, line string) string {
+	quietLogs()
+	kind := field(hdr, "kind", "plain")
+	init, _ := strconv.ParseUint(field(hdr, "init", "0"), 10, 64)
+	applied, _ := strconv.ParseUint(field(hdr, "applied", "0"), 10, 64)
+	rec := &applyRec{init: init}
+	cfg := config.Config{ShardID: 1, ReplicaID: 1}
+	stop := make(chan struct{})
+	var m hk.IManagedStateMachine
+	switch kind {
+	case "plain":
+		m = hk.NewRegularSM(cfg, aPlain{rec}, stop)
+	case "conc":
+		m = hk.NewConcurrentSM(cfg, aConc{rec}, stop)
+	default:
+		m = hk.NewOnDiskSM(cfg, aDisk{rec}, stop)
+	}
+	ss := &aSnapshotter{}
+	s := hk.NewStateMachine(m, ss, cfg, &aNode{stop: stop}, hk.NewMemFS())
+	errc := 0
+	dropped := false
+	p := vh.Catch(func() {
+		if kind == "disk" {
+			if _, err := s.OpenOnDiskStateMachine(); err != nil {
+				panic(err)
+			}
+		}
+		if applied > 0 {
+			ss.ss, ss.has = dummySS(applied), true
+			if _, err := s.Recover(hk.Task{Recover: true, Initial: true}); err != nil {
+				panic(err)
+			}
+		}
+		for _, o := range ops {
+			f := strings.Fields(o)
+			if len(f) == 0 {
+				continue
+			}
+			switch f[0] {
+			case "T":
+				var ents []pb.Entry
+				if len(f) > 1 {
+					for _, x := range strings.Split(f[1], ",") {
+						t := strings.Split(x, ":")
+						i, _ := strconv.ParseUint(t[0], 10, 64)
+						pl, _ := strconv.ParseUint(t[2], 10, 64)
+						e := pb.Entry{Index: i, Term: 1, Type: pb.ApplicationEntry}
+						if t[1] == "u" {
+							e.ClientID = 77 // NoOP session: session managed, series id 0
+							e.Cmd = make([]byte, 8)
+							binary.LittleEndian.PutUint64(e.Cmd, pl)
+						}
+						ents = append(ents, e)
+					}
+				}
+				s.TaskQ().Add(hk.Task{Entries: ents})
+			case "SYNC":
+				s.TaskQ().Add(hk.Task{PeriodicSync: true})
+			case "SAVE":
+				s.TaskQ().Add(hk.Task{Save: true})
+			case "REC":
+				i, _ := strconv.ParseUint(f[1], 10, 64)
+				s.TaskQ().Add(hk.Task{Recover: true, Index: i})
+			}
+		}
+		batch := make([]hk.Task, 0, 8)
+		entries := make([]sm.Entry, 0, 8)
+		for guard := 0; guard < 10000; guard++ {
+			before := s.TaskQ().Size()
+			t, err := s.Handle(batch, entries)
+			if err != nil {
+				panic(err)
+			}
+			if t.Recover {
+				ss.ss, ss.has = dummySS(t.Index), true
+				_, _ = s.Recover(t) // ErrSnapshotOutOfDate is what the snapshot worker ignores too
+			}
+			if !t.IsSnapshotTask() && before == 0 {
+				break
+			}
+		}
+	})
+	errc = panicClass(p)
+	var parts []string
+	for _, c := range rec.calls {
+		parts = append(parts, fmt.Sprintf("%d:%d", c[0], c[1]))
+		if kind == "disk" && c[0] <= init {
+			st.Violation(id, fmt.Sprintf("on-disk state machine handed entry %d at or below the index %d returned by Open", c[0], init))
+		}
+	}
+	for i := 1; i < len(rec.calls); i++ {
+		if rec.calls[i][0] <= rec.calls[i-1][0] {
+			st.Violation(id, fmt.Sprintf("Update index %d after %d", rec.calls[i][0], rec.calls[i-1][0]))
+		}
+	}
+	if errc == 9 {
+		st.Violation(id, "unexpected panic of the apply path: "+p)
+	}
+	cs := "-"
+	if len(parts) > 0 {
+		cs = strings.Join(parts, ",")
+	}
+	for _, o := range ops {
+		if strings.Contains(o, ":s:") {
+			dropped = true
+		}
+	}
+	st.Count("apply-kind:" + kind)
+	st.Count(fmt.Sprintf("apply-err:%d", errc))
+	st.Case(line, dropped || errc != 0 || (kind == "disk" && init > applied), line)
+	return fmt.Sprintf("%s apply err=%d index=%d calls=%s\n", id, errc, hk.Index(s), cs)
+}
+
+// genApplyCases: streams of batches; mostly gap-free, with re-sent prefixes, non-update entries,
+// barriers, and a malformed share (holes between batches; gaps inside a batch only for the plain
+// kind: the batched path of the concurrent kinds hands the whole batch to Update before the gap
+// is noticed)
+func genApplyCases(r *vh.Rand, w *vh.LineWriter, a vh.Args) {
+	n := 120
+	if a.Tier == "thorough" {
+		n = 4000
+	}
+	if a.N > 0 {
+		n = a.N
+	}
+	for c := 0; c < n; c++ {
+		kind := []string{"plain", "conc", "disk"}[r.Intn(3)]
+		applied := uint64(r.Intn(6))
+		init := uint64(0)
+		if kind == "disk" {
+			init = uint64(r.Intn(10))
+		}
+		next := applied + 1
+		var ops []string
+		nb := 1 + r.Intn(5)
+		for b := 0; b < nb; b++ {
+			switch r.Intn(10) {
+			case 0:
+				ops = append(ops, "SYNC")
+			case 1:
+				ops = append(ops, "SAVE")
+			case 2:
+				i := next + uint64(r.Intn(4))
+				if r.Intn(3) == 0 && next > 1 {
+					i = next - 1 - uint64(r.Intn(int(next-1))) // out of date
+				}
+				ops = append(ops, fmt.Sprintf("REC %d", i))
+				if i >= next {
+					next = i + 1
+				}
+			}
+			first := next
+			switch r.Intn(12) {
+			case 0:
+				if first > 2 {
+					first -= uint64(1 + r.Intn(2)) // re-sent prefix
+				}
+			case 1:
+				first += uint64(1 + r.Intn(2)) // hole
+			}
+			ne := 1 + r.Intn(5)
+			var es []string
+			idx := first
+			for k := 0; k < ne; k++ {
+				t := "u"
+				if r.Intn(5) == 0 {
+					t = "s"
+				}
+				es = append(es, fmt.Sprintf("%d:%s:%d", idx, t, 1000+idx))
+				idx++
+				if kind == "plain" && r.Intn(25) == 0 {
+					idx++ // gap inside the batch
+				}
+			}
+			ops = append(ops, "T "+strings.Join(es, ","))
+			if idx > next {
+				next = idx
+			}
+		}
+		disk := 0
+		if kind == "disk" {
+			disk = 1
+		}
+		w.Printf("A%d_%d apply kind=%s disk=%d init=%d applied=%d | %s\n", a.Seed, c, kind, disk, init, applied, strings.Join(ops, " ; "))
+	}
+}
+
+var genApply = func(r *vh.Rand, w *vh.LineWriter, a vh.Args) { genApplyCases(r, w, a) }
+var runApply = runApplyCase
